@@ -255,6 +255,22 @@ def run_rec(ctx, exe, scns, tag, nshards=None, timeout=900):
                 out.flush()
                 if p.returncode == 0:
                     break
+                if p.returncode == 79:          # the recorder gave up inside a scenario and wrote its own End record
+                    marks = re.findall(r"^@(\d+)$", p.stderr, re.M)
+                    first = (int(marks[-1]) if marks else first) + 1
+                    crashes += 1
+                    if crashes > 200:
+                        break
+                    continue
+                # the dying process may leave a partial last line: cut it off so that the log stays well-formed NDJSON
+                out.flush()
+                with open(tf, "rb+") as fx:
+                    fx.seek(0, 2); size = fx.tell(); back = min(size, 1 << 16)
+                    fx.seek(size - back); tail = fx.read(back)
+                    if tail and not tail.endswith(b"}\n"):
+                        cut = tail.rfind(b"}\n")
+                        fx.truncate(size - back + cut + 2 if cut >= 0 else size - back)
+                out.seek(0, 2)
                 marks = re.findall(r"^@(\d+)$", p.stderr, re.M)
                 bad = int(marks[-1]) if marks else first
                 rep = p.stderr[p.stderr.rfind("@%d" % bad):][:1500] if marks else p.stderr[:1500]
@@ -263,8 +279,12 @@ def run_rec(ctx, exe, scns, tag, nshards=None, timeout=900):
                 fr = re.findall(r"#\d+ 0x[0-9a-f]+ in (\w+) ", rep)
                 fr = [x for x in fr if not x.startswith("__") and x not in ("main", "run_scenario", "api_data")][:3]
                 crashes += 1
-                out.write(json.dumps({"e": "Reset", "run": shards[i][bad].name, "p": 1, "cfg": {"autod": False, "maxtx": 0, "hard": 18000, "mode": "proto", "wf": False, "n": -1, "pers": 0, "failat": -1, "cls": "crash"}}) + "\n")
-                out.write(json.dumps({"e": "End", "live": 0, "san": True, "what": what + " @ " + ">".join(fr), "stall": False, "leftq": 0, "lefts": 0, "closed": False, "ntx": 0, "ncb": 0, "allocs": 0, "failfn": ""}) + "\n")
+                # the Reset record of the crashed scenario was flushed by the recorder; if the log does not end inside that
+                # scenario (nothing of it was written), open it here
+                last_reset = subprocess.run("tac %s | grep -a -m1 '\"e\":\"Reset\"'" % tf, shell=True, capture_output=True, text=True).stdout
+                if ('"run":"%s"' % shards[i][bad].name) not in last_reset:
+                    out.write(json.dumps({"e": "Reset", "run": shards[i][bad].name, "p": 1, "cfg": {"autod": False, "maxtx": 0, "hard": 18000, "mode": "proto", "wf": False, "ids": False, "pumpdir": "none", "pumpstart": 0, "n": -1, "pers": 0, "failat": -1, "cls": "crash"}}) + "\n")
+                out.write(json.dumps({"e": "End", "live": 0, "san": True, "what": what + " @ " + ">".join(fr), "stall": False, "leftq": 0, "lefts": 0, "closed": False, "ntx": 0, "nser": 0, "ncb": 0, "allocs": 0, "failfn": ""}) + "\n")
                 out.flush()
                 first = bad + 1
                 if crashes > 200:
